@@ -180,13 +180,27 @@ fn derive<'a>(form: &str, text: &'a str, i: usize) -> exmex::ExResult<Deriv<'a>>
         "flat" => Deriv::of(exmex::parse_val::<i32, f64>(text)?.partial(i)?),
         "deep" => Deriv::of(VDeep::parse(text)?.partial(i)?),
         "flat->deep" => Deriv::of(exmex::parse_val::<i32, f64>(text)?.to_deepex()?.partial(i)?),
-        _ => Deriv::of(VFlat::from_deepex(VDeep::parse(text)?)?.partial(i)?),
+        "deep->flat" => Deriv::of(VFlat::from_deepex(VDeep::parse(text)?)?.partial(i)?),
+        // relaxed differentiation: operators without a rule (inside the condition) are
+        // differentiated per operand / kept as they are
+        "flat:per-operand" => Deriv::of(exmex::parse_val::<i32, f64>(text)?.partial_relaxed(i, exmex::MissingOpMode::PerOperand)?),
+        "flat:none" => Deriv::of(exmex::parse_val::<i32, f64>(text)?.partial_relaxed(i, exmex::MissingOpMode::None)?),
+        "deep:per-operand" => Deriv::of(VDeep::parse(text)?.partial_relaxed(i, exmex::MissingOpMode::PerOperand)?),
+        "deep:none" => Deriv::of(VDeep::parse(text)?.partial_relaxed(i, exmex::MissingOpMode::None)?),
+        "deep->flat:per-operand" => Deriv::of(VFlat::from_deepex(VDeep::parse(text)?)?.partial_relaxed(i, exmex::MissingOpMode::PerOperand)?),
+        f => panic!("harness: unknown form {f}"),
     })
 }
+const RELAXED_FORMS: [&str; 5] = ["flat:per-operand", "flat:none", "deep:per-operand", "deep:none", "deep->flat:per-operand"];
+const XS_INT: [i32; 8] = [1, 4, 5, 8, 3, 6, 2, 7];
+const YS_INT: [i32; 8] = [3, 2, 7, 1, 4, 5, 6, 3];
 
 fn judge_form(form: &str, tree: &Tree, t: &Table, text: &str, vars: &[String], acc: &mut Acc) {
     let fs = if form == "flat" { String::new() } else { format!("{form}:") };
     let fs = fs.as_str();
+    // relaxed forms are only used for trees whose operators without a rule sit inside
+    // conditions; they are evaluated at integer points (`%` is an integer operator)
+    let relaxed = form.contains(':');
     for i in 0..vars.len() {
         acc.evaluations += 1;
         let lib = guard(|| derive(form, text, i));
@@ -196,7 +210,7 @@ fn judge_form(form: &str, tree: &Tree, t: &Table, text: &str, vars: &[String], a
                 continue;
             }
             Ok(Err(e)) => {
-                if no_rule_class(tree, t, &vars[i]) != NoRule::None {
+                if !relaxed && no_rule_class(tree, t, &vars[i]) != NoRule::None {
                     acc.count("refused(no rule)", 1);
                 } else {
                     acc.violate(Violation { signature: format!("{fs}differentiation-failed:{}", canon_ops(tree, t)), what: format!("{fs}partial({i}) of {text:?} failed: {}", e.msg()), case: json!({"engine": "c18", "text": text}) });
@@ -209,14 +223,14 @@ fn judge_form(form: &str, tree: &Tree, t: &Table, text: &str, vars: &[String], a
             acc.violate(Violation { signature: format!("{fs}variable-list"), what: format!("{fs}derivative of {text:?} lists {:?} instead of {vars:?}", d.var_names()), case: json!({"engine": "c18", "text": text}) });
             continue;
         }
-        if no_rule_class(tree, t, &vars[i]) == NoRule::Hard {
+        if !relaxed && no_rule_class(tree, t, &vars[i]) == NoRule::Hard {
             acc.count("no-rule operator above the variable accepted (C05's business for floats; not judged here)", 1);
             continue;
         }
         let mut conclusive = 0;
         for p in 0..XS.len() {
-            let pt: Vec<f64> = (0..vars.len()).map(|k| if k == 0 { XS[p] } else { YS[(p + k - 1) % YS.len()] }).collect();
-            let vals: Vec<VN> = pt.iter().map(|x| VN { rv: RV::Float(*x), e: 0.0 }).collect();
+            let pt: Vec<f64> = (0..vars.len()).map(|k| if relaxed { (if k == 0 { XS_INT[p] } else { YS_INT[(p + k - 1) % YS_INT.len()] }) as f64 } else if k == 0 { XS[p] } else { YS[(p + k - 1) % YS.len()] }).collect();
+            let vals: Vec<VN> = pt.iter().map(|x| VN { rv: if relaxed { RV::Int(*x as i32) } else { RV::Float(*x) }, e: 0.0 }).collect();
             if near_boundary(tree, t, &vars, &vals) {
                 acc.count("points_near_a_branch_boundary(skipped)", 1);
                 continue;
@@ -238,7 +252,7 @@ fn judge_form(form: &str, tree: &Tree, t: &Table, text: &str, vars: &[String], a
                 continue;
             }
             acc.transitions += 1;
-            let got = guard(|| d.eval(&pt.iter().map(|x| Val::Float(*x)).collect::<Vec<_>>()).map(|v| from_val(&v)));
+            let got = guard(|| d.eval(&pt.iter().map(|x| if relaxed { Val::Int(*x as i32) } else { Val::Float(*x) }).collect::<Vec<_>>()).map(|v| from_val(&v)));
             let got = match got {
                 Ok(Ok(v)) => v,
                 Ok(Err(e)) => {
@@ -384,6 +398,67 @@ fn condition_arithmetic(t: &std::sync::Arc<Table>, rep: &mut Report, th: bool) {
     rep.bounds.push(format!("condition-arithmetic: {} arithmetic conditions (sizes {sizes:?}) x {} comparisons x 2 right-hand sides x mirrored x {} branch pairs = {total} piecewise trees x 4 forms x every variable x 6 float points: complete in {:.1}s", space.total, cmps.len(), pairs.len(), t0.elapsed().as_secs_f64()));
 }
 
+/// `F if (A % B) cmp C else G`: an operator without derivative rule inside the condition, through
+/// the relaxed differentiation modes, at integer points
+fn condition_norule(t: &std::sync::Arc<Table>, rep: &mut Report, th: bool) {
+    let f = |n: &str| -> u16 { t.ops.iter().position(|o| o.name == n && o.bin.is_some()).unwrap() as u16 };
+    let lv = |n: &str| if n.chars().next().unwrap().is_ascii_alphabetic() { Tree::var(n) } else { Tree::Lit(n.to_string()) };
+    let operands = ["x", "y", "2", "3", "7"];
+    let cmps: Vec<u16> = if th { vec![f("=="), f("<"), f(">="), f("!=")] } else { vec![f("=="), f("<")] };
+    let rhs = ["0", "1", "y"];
+    let nr_ops = if th { vec![f("%"), f("<<"), f(">>")] } else { vec![f("%")] };
+    let (fi, fe) = (f("if"), f("else"));
+    let pairs: Vec<(Tree, Tree)> = vec![(Tree::bin(f("*"), lv("x"), lv("x")), Tree::bin(f("*"), lv("3"), lv("x"))), (lv("x"), lv("2")), (Tree::bin(f("*"), lv("x"), lv("y")), Tree::bin(f("+"), lv("x"), lv("y")))];
+    let mut trees = Vec::new();
+    for &o in &nr_ops {
+        for a in operands {
+            for b in operands {
+                for &c in &cmps {
+                    for r in rhs {
+                        for mirrored in [false, true] {
+                            let e1 = Tree::bin(o, lv(a), lv(b));
+                            let cond = if mirrored { Tree::bin(c, lv(r), e1) } else { Tree::bin(c, e1, lv(r)) };
+                            if !cond.has_var() {
+                                continue;
+                            }
+                            for (fb, gb) in &pairs {
+                                trees.push(Tree::bin(fe, Tree::bin(fi, fb.clone(), cond.clone()), gb.clone()));
+                            }
+                        }
+                    }
+                }
+            }
+        }
+    }
+    let accs = par_ranges(trees.len() as u64, 16, install_panic_hook, |st, en, acc| {
+        let r = Renderer { t, lk: LitKind::Val };
+        for i in st..en {
+            let tree = &trees[i as usize];
+            let text = r.render_default(tree);
+            match spec::read(&text, t, LitKind::Val) {
+                SpecResult::Ok(t2) if t2 == *tree => {}
+                o => {
+                    println!("MACHINERY-FAILURE property=C18 reference does not read back {text:?}: {o:?}");
+                    std::process::exit(2);
+                }
+            }
+            acc.states += 1;
+            acc.nontrivial += 1;
+            let vars = tree.vars();
+            for form in RELAXED_FORMS {
+                judge_form(form, tree, t, &text, &vars, acc);
+            }
+            if i % 211 == 0 {
+                acc.sample(json!({"campaign": "condition-with-no-rule-operator", "text": text}));
+            }
+        }
+    });
+    for a in accs {
+        rep.absorb(a);
+    }
+    rep.bounds.push(format!("condition-with-no-rule-operator: {} piecewise trees `F if (A op B) cmp C else G` (op in % << >>) x partial_relaxed (PerOperand, None) x flat / deep / deep->flat x every variable x 8 integer points: complete", trees.len()));
+}
+
 fn name_of<'a>(tree: &Tree, t: &'a Table) -> &'a str {
     match tree {
         Tree::Un(k, _) | Tree::Bin(k, _, _) => t.ops[*k as usize].name,
@@ -453,6 +528,7 @@ pub fn run(tier: Tier) -> i32 {
     campaign(&t, Alphabet { leaves: lv(&["x", "y", "2", "2.5", "3"]), uns: f(&["-", "sin", "sqrt"], true), bins: pw_bins.clone() }, &if th { vec![(4, 0), (4, 1), (5, 0)] } else { vec![(4, 0), (4, 1)] }, |tr, t| well_typed(tr, t) && has_piecewise(tr, t), &mut rep, "piecewise-n4");
     campaign(&t, Alphabet { leaves: lv(&["x", "2", "1.5"]), uns: f(&["-", "sin"], true), bins: f(&["*", "/", "if", "else", "<", ">="], false) }, &[(4, 1), (5, 0)], |tr, t| well_typed(tr, t) && has_piecewise(tr, t), &mut rep, "piecewise-n5-single-var");
     condition_arithmetic(&t, &mut rep, th);
+    condition_norule(&t, &mut rep, th);
     if th {
         campaign(&t, Alphabet { leaves: lv(&["x", "y", "2", "1.5"]), uns: vec![], bins: f(&["+", "*", "/", "if", "else", "<", ">"], false) }, &[(5, 0), (6, 0)], |tr, t| well_typed(tr, t) && has_piecewise(tr, t), &mut rep, "piecewise-n6");
         campaign(&t, Alphabet { leaves: lv(&["x", "2"]), uns: vec![], bins: f(&["*", "if", "else", "<", ">"], false) }, &[(7, 0)], |tr, t| well_typed(tr, t) && has_piecewise(tr, t), &mut rep, "nested-piecewise-n7");
